@@ -43,6 +43,7 @@ def facets(c):
     f["s"] = list(c["s"])
     f["maxnd"] = max(len(c["s"]), len(c["s2"]))
     f["rank_excess"] = len(c["s"]) - len(c["tp"])
+    f["mode_or_nd"] = len(c["s"])
     f["square"] = len(c["s"]) == 2 and c["s"][0] == c["s"][1]
     return f
 
